@@ -30,12 +30,13 @@ class Ob:
     """
 
     def __init__(self, name, kind, bound, functions, tiers=('quick', 'thorough'), fn=None, harness=None,
-                 func=None, timeout=60, replay=None, classify=None, stubs=(), twin=True, expect=None):
+                 func=None, timeout=60, replay=None, classify=None, stubs=(), twin=True, expect=None, parts=1):
         self.name, self.kind, self.bound, self.functions = name, kind, bound, list(functions)
         self.tiers, self.fn, self.harness, self.func = tiers, fn, harness, func
         self.timeout, self.replay, self.classify, self.stubs = timeout, replay, classify, list(stubs)
         self.twin = twin
         self.expect = expect
+        self.parts = parts     # CrossHair condition split into `parts` disjoint sub-conditions (env VERIF_PART), run concurrently
 
 
 # ---------------------------------------------------------------------------------------------------
@@ -133,17 +134,17 @@ def _make_twin(harness, func, node, tmpdir):
     names = [a.arg for a in node.args.args]
     text = (
         'import sys\nfrom typing import *\nsys.path.insert(0, %r)\nsys.path.insert(0, %r)\n'
-        'from engine import mark\nimport %s as _H\n'
+        'from engine import mark\nimport %s as _H\nfrom %s import *\n'
         'def twin(%s) -> bool:\n    """\n%s\n    post: _\n    """\n'
         '    mark.REACHED = False\n    try:\n        _H.%s(%s)\n    except Exception:\n        pass\n    return not mark.REACHED\n'
-    ) % (HOME, os.path.join(HOME, 'harness'), harness, args, '\n'.join('    ' + p for p in pres), func, ', '.join(names))
+    ) % (HOME, os.path.join(HOME, 'harness'), harness, harness, args, '\n'.join('    ' + p for p in pres), func, ', '.join(names))
     path = os.path.join(tmpdir, 'twin_%s_%s.py' % (harness, func))
     with open(path, 'w') as f:
         f.write(text)
     return path
 
 
-def _crosshair(target, timeout, per_path=None):
+def _crosshair(target, timeout, per_path=None, part=None):
     cmd = [CROSSHAIR, 'check', '--extra_plugin', os.path.join(HOME, 'engine', 'plugin.py'), '--report_all', '-v',
            '--per_condition_timeout', str(timeout)]
     if per_path:
@@ -152,6 +153,10 @@ def _crosshair(target, timeout, per_path=None):
     env = dict(os.environ)
     env['PYTHONPATH'] = HOME + os.pathsep + os.path.join(HOME, 'harness') + os.pathsep + env.get('PYTHONPATH', '')
     env['PYTHONHASHSEED'] = '0'
+    if part is not None:
+        env['VERIF_PART'] = str(part)
+    else:
+        env.pop('VERIF_PART', None)
     t0 = time.time()
     stats = dict(paths=0, unknown=0, realized=0, tree='')
     p = subprocess.Popen(cmd, stdout=subprocess.PIPE, stderr=subprocess.PIPE, text=True, env=env, cwd=HOME)
@@ -173,13 +178,17 @@ def _crosshair(target, timeout, per_path=None):
                     stats['stderr_tail'].append(line.strip()[:300])
     th = threading.Thread(target=pump, daemon=True)
     th.start()
+    outbuf = []
+    th2 = threading.Thread(target=lambda: outbuf.append(p.stdout.read()), daemon=True)
+    th2.start()
     try:
-        out, _ = p.communicate(timeout=timeout * 2.5 + 120)
+        p.wait(timeout=timeout * 2.5 + 120)
     except subprocess.TimeoutExpired:
         p.kill()
-        out = ''
         stats['hard_timeout'] = True
-    th.join(5)
+    th.join(10)
+    th2.join(10)
+    out = outbuf[0] if outbuf else ''
     stats['wall'] = time.time() - t0
     stats['exit'] = p.returncode
     return out or '', stats
@@ -187,7 +196,19 @@ def _crosshair(target, timeout, per_path=None):
 
 def _run_ch(prop, ob, tmpdir):
     path, line, node = _harness_target(ob.harness, ob.func)
-    out, st = _crosshair('%s:%d' % (path, line), ob.timeout)
+    if ob.parts > 1:
+        with ThreadPoolExecutor(max_workers=ob.parts) as ex:
+            runs = list(ex.map(lambda k: _crosshair('%s:%d' % (path, line), ob.timeout, part=k), range(ob.parts)))
+        out = '\n'.join(o for o, _ in runs)
+        st = dict(wall=max(s_['wall'] for _, s_ in runs), paths=sum(s_['paths'] for _, s_ in runs), unknown=sum(s_['unknown'] for _, s_ in runs),
+                  realized=sum(s_['realized'] for _, s_ in runs), tree=' | '.join(s_['tree'] for _, s_ in runs)[:600],
+                  exit=max((s_.get('exit') or 0) for _, s_ in runs), stderr_tail=[x for _, s_ in runs for x in s_.get('stderr_tail', [])][:20])
+        verdicts = []
+        for o, _ in runs:
+            verdicts.append('cex' if ': error: ' in o else 'confirmed' if 'Confirmed over all paths' in o else 'unmet' if 'Unable to meet precondition' in o else 'open')
+        st['part_verdicts'] = verdicts
+    else:
+        out, st = _crosshair('%s:%d' % (path, line), ob.timeout)
     res = dict(verdict='unknown', note='', wall=st['wall'], paths=st['paths'], unknown_paths=st['unknown'],
                realized=st['realized'], tree=st['tree'], queries=st['paths'])
     msgs = []
@@ -214,9 +235,11 @@ def _run_ch(prop, ob, tmpdir):
             model = dict(zip(names, args))
             model.update(kwargs)
             res['model'] = model
+    elif ob.parts > 1 and not all(v == 'confirmed' for v in st['part_verdicts']):
+        res['note'] = 'parts: %s (search not exhausted in %ss CPU per part; %d paths explored, none failed)' % (','.join(st['part_verdicts']), ob.timeout, st['paths'])
     elif any('Confirmed over all paths' in m for m in infos):
         res['verdict'] = 'unsat'
-        res['note'] = 'Confirmed over all paths'
+        res['note'] = 'Confirmed over all paths' + (' in each of %d parts' % ob.parts if ob.parts > 1 else '')
     elif any('Unable to meet precondition' in m for m in infos):
         res['note'] = 'Unable to meet precondition'
     elif any('Not confirmed' in m for m in infos):
